@@ -176,7 +176,7 @@ static void set04C(const int *d, vcase *c)
 }
 static const family FAM04_Q[] = {
     { "ALL(1..3) x {V0,V1,V6} x colperm5 x u{1,.1,1e-3,.5,0} x sym2 x stor2 x tune4 x type4", 8, { N_ALL123, 3, 5, 5, 2, 2, 4, 4 }, set04A },
-    { "ALL(4) x {V0,V1,V6} x colperm5 x u{1,.1} x tune{0,2,3,5} x type4", 6, { N_ALL4, 3, 5, 2, 4, 4 }, set04B },
+    { "ALL(4) x {V0,V1,V6} x colperm{NAT,MMD_ATA,MMD_AT+A} x u{1,.1} x tune{0,2} x type4", 6, { N_ALL4, 3, 3, 2, 2, 4 }, set04B },
 };
 static const family FAM04_T[] = {
     { "ALL(1..3) x {V0,V1,V6} x colperm5 x u{1,.1,1e-3,.5,0} x sym2 x stor2 x tune4 x type4", 8, { N_ALL123, 3, 5, 5, 2, 2, 4, 4 }, set04A },
